@@ -251,7 +251,11 @@ func mutations() []mutation {
 		}
 	})
 	add("count=0", func(m *g.Msg) { m.Items = nil })
-	add("count=1", func(m *g.Msg) { m.Items = m.Items[:1] })
+	add("count=1", func(m *g.Msg) {
+		if len(m.Items) > 1 {
+			m.Items = m.Items[:1]
+		}
+	})
 	add("count=max", func(m *g.Msg) { m.Items = append(m.Items, g.Item{Ident: idC, Val: goodVal(m, idC)}) })
 	add("count=max+1", func(m *g.Msg) {
 		m.Items = append(m.Items, g.Item{Ident: idC, Val: goodVal(m, idC)}, g.Item{Ident: idD, Val: goodVal(m, idD)})
